@@ -341,6 +341,7 @@ package meta
 //@   holds fsm.mu
 //@   at after proto.GetExtension#1: assume typeis(callresult0, "*metapb.CopyShardOwnerCommand") && ival(callresult0) != 0
 //@   ensures rejected_changes_nothing: result != nil ==> fsm.data == old(fsm.data)
+//@   call Data.CopyShardOwner#1 assume_callee_requires
 //@   call Data.CopyShardOwner#1 requires runs_on_private_copy: fresh(other)
 
 //@ func (*storeFSM).applyRemoveShardOwnerCommand
@@ -473,10 +474,6 @@ package meta
 //@   call Data.DeleteDataNode#1 requires runs_on_private_copy: fresh(other)
 
 // Data's mutators cannot reach the store (Data holds no pointer to it): assumed frame, bodies unverified here.
-//@ func (*Data).CopyShardOwner
-//@   assumed
-//@   modifies *except storeFSM.all store.all
-
 //@ func (*Data).CreateContinuousQuery
 //@   assumed
 //@   modifies *except storeFSM.all store.all
@@ -627,6 +624,18 @@ package meta
 //@   ensures effective_end_never_grows: all(r, eff_end(cast(ShardGroupInfo, r)) <= old(eff_end(cast(ShardGroupInfo, r))))
 //@   ensures groups_stay_ordered: all(r, group_ordered(cast(ShardGroupInfo, r)))
 //@   modifies ShardGroupInfo.TruncatedAt
+
+// ---- C06: owners of a shard stay distinct: CopyShardOwner adds a node only if it is not an owner yet ----
+// Owner lists are NOT ordered by node id (CreateShardGroup assigns round robin, so [3,1] is normal): the scan
+// has to look at every owner before it may conclude that the node is new. A duplicate owner survives
+// DeleteDataNode / RemoveShardOwner (they strip one occurrence), leaving a shard owned by a removed node.
+//@ func (*Data).CopyShardOwner
+//@   props C06
+//@   nosafety
+//@   modifies *except storeFSM.all store.all
+//@   loop 5 invariant not_an_owner_so_far: all(k, 0, rangeindex+1, s.Owners[k].NodeID != nodeID)
+//@   call append#1 requires added_only_if_not_yet_an_owner: all(k, 0, len(s.Owners), s.Owners[k].NodeID != nodeID)
+//@   call append#2 requires added_only_if_not_yet_an_owner: all(k, 0, len(s.Owners), s.Owners[k].NodeID != nodeID)
 
 // ---- C16: a write is authorised only for a known OSS user holding WRITE (or ALL, or admin) on that database ----
 //@ func (*Client).User
